@@ -491,6 +491,13 @@ func genAAAAResp(rng *rand.Rand, m *model, qname string, k int) respSpec {
 // genPipeCase: one AAAA-side triple. Gates are closed one at a time most of
 // the time so each "must not synthesise" reason is observed in isolation.
 func genPipeCase(rng *rand.Rand, e *env, cfg cfgSpec, idx int) *pipeCase {
+	return genPipeCaseUnder(rng, e, cfg, idx, "")
+}
+
+// genPipeCaseUnder is genPipeCase with the query name put under an extra
+// leading label (the wire part's per-execution tag); the random stream is
+// consumed identically for any prefix.
+func genPipeCaseUnder(rng *rand.Rand, e *env, cfg cfgSpec, idx int, prefix string) *pipeCase {
 	m := e.m
 	c := &pipeCase{Kind: "pipe", Index: idx, Cfg: cfg, Proto: pick(rng, []string{"udp", "tcp"}),
 		Qtype: dns.TypeAAAA, RD: true}
@@ -508,7 +515,7 @@ func genPipeCase(rng *rand.Rand, e *env, cfg cfgSpec, idx int) *pipeCase {
 		wantEligible = rng.IntN(2) == 0
 	}
 	c.Client = genClient(rng, m, wantEligible)
-	c.Qname = genQname(rng, m, wantExcludedZone)
+	c.Qname = prefix + genQname(rng, m, wantExcludedZone)
 	c.AD = rng.IntN(3) == 0
 	c.EDNS = rng.IntN(4) != 0
 	c.DO = c.EDNS && rng.IntN(2) == 0
